@@ -60,6 +60,7 @@ type State struct {
 	sideMark int // index into side up to which side conditions have been emitted as obligations
 	typed    map[int]bool
 	cutDone  map[int]bool
+	sidePending int
 	persist  []*Term // facts that survive a cut: entry assumptions and earlier cut assertions
 	steps    int
 	trace    []string
@@ -82,6 +83,7 @@ func (st *State) clone() *State {
 		typed:    make(map[int]bool, len(st.typed)),
 		cutDone:  make(map[int]bool, len(st.cutDone)),
 		persist:  st.persist[:len(st.persist):len(st.persist)],
+		sidePending: st.sidePending,
 		steps:    st.steps,
 		trace:    st.trace[:len(st.trace):len(st.trace)],
 	}
@@ -142,6 +144,7 @@ func (st *State) addSide(c *Term, what string) {
 	}
 	st.sideSeen[c.id] = true
 	st.side = append(st.side, SideCond{c, what})
+	st.sidePending++
 }
 
 // ---------- memory ----------
@@ -175,6 +178,8 @@ type Engine struct {
 	anchorCache   map[*ssa.Function]*cutAnchorSet
 	preds         map[string]bool
 	flowOK        int
+	sideBatch     int
+	debugNames    map[ssa.Value]string
 }
 
 func (en *Engine) newRegion(name string, t types.Type, kind string) *Region {
@@ -190,7 +195,7 @@ func (en *Engine) oblName(kind string) string {
 
 func (en *Engine) addObl(st *State, kind string, goal *Term, detail string, pos string) *Obligation {
 	// conjunctions of a postcondition / cut / invariant become one obligation per conjunct
-	if goal.op == OAnd && (kind == "post" || strings.HasPrefix(kind, "cut@") || strings.HasPrefix(kind, "inv-") || strings.HasPrefix(kind, "pre@")) && len(goal.args) <= 300 {
+	if goal.op == OAnd && (kind == "post" || strings.HasPrefix(kind, "cut@") || strings.HasPrefix(kind, "inv-") || strings.HasPrefix(kind, "pre@")) && len(goal.args) <= 2000 {
 		var last *Obligation
 		for i, g := range goal.args {
 			last = en.addObl(st, kind, g, fmt.Sprintf("%s [conjunct %d/%d]", detail, i+1, len(goal.args)), pos)
@@ -219,6 +224,7 @@ func (en *Engine) flushSide(st *State) {
 	}
 	n := len(st.side) - st.sideMark
 	st.sideMark = len(st.side)
+	st.sidePending = 0
 	g := And(cs...)
 	if g.IsTrue() {
 		return
